@@ -16,6 +16,7 @@ RULE = ("histories of 1..40 public RSTWriter API operations (text/field/bulleted
         "reference model, options contiguous after their heading. Non-trivial: the history builds a "
         "directive nested inside another directive that carries an option and a multi-line paragraph, and "
         "contains a title change or clear(); distinct by SHA-1 of the operation list")
+RULE_MORE = 'directive rename; header lists as tuple / str and with > 10 characters; deep section chains; splitlines characters; a long paragraph at several depths.'
 ASSUMPTIONS = ["titles, names, items and field values are single-line and contain a non-space character "
                "(the property speaks of lines); sections are created on writers/sections only",
                "blank/whitespace-only lines are not constrained by the property and are ignored"]
